@@ -2,6 +2,7 @@ package harfbuzz
 
 import (
 	"fmt"
+	"math"
 
 	"github.com/go-text/typesetting/font"
 	ot "github.com/go-text/typesetting/font/opentype"
@@ -1641,7 +1642,7 @@ func (c *aatApplyContext) applyTrak(trak tables.Trak) {
 	buffer := c.buffer
 	if buffer.Props.Direction.isHorizontal() {
 		trackData := trak.Horiz
-		tracking := int(getTracking(trackData, ptem, 0))
+		tracking := roundTracking(getTracking(trackData, ptem, 0))
 		advanceToAdd := c.font.emScalefX(float32(tracking))
 		offsetToAdd := c.font.emScalefX(float32(tracking / 2))
 
@@ -1656,7 +1657,7 @@ func (c *aatApplyContext) applyTrak(trak tables.Trak) {
 
 	} else {
 		trackData := trak.Vert
-		tracking := int(getTracking(trackData, ptem, 0))
+		tracking := roundTracking(getTracking(trackData, ptem, 0))
 		advanceToAdd := c.font.emScalefY(float32(tracking))
 		offsetToAdd := c.font.emScalefY(float32(tracking / 2))
 		iter, count := buffer.graphemesIterator()
@@ -1669,6 +1670,12 @@ func (c *aatApplyContext) applyTrak(trak tables.Trak) {
 		}
 
 	}
+}
+
+// roundTracking rounds the interpolated tracking half up, as upstream's get_tracking does
+// (roundf, which upstream defines as floorf(x + .5f)); truncating loses up to one unit
+func roundTracking(v float32) int {
+	return int(math.Floor(float64(v) + 0.5))
 }
 
 // idx is assumed to verify idx <= len(Sizes) - 2
